@@ -30,8 +30,15 @@ static void fail_hang(const char *what, const char *fmt, long a, double b)
   snprintf(msg, sizeof msg, fmt, a, b);
   vh_fail_now(vh_current(), key, "%s", msg);
 }
+#define CLUSTER_PASS_CEILING 20000L     /* passes of one selection / Lloyd loop (k-means++ needs ~k, Lloyd <= 100, MDC <= n: see max_clustering_loop_passes) */
+static long g_cluster_passes;
 static void tick_hook(int loop, size_t comp, double conv)
 {
+  if (loop >= 3) {          /* clustering loops: no convergence value, the number of passes is the logical clock */
+    vh_obs("hook_clustering_pass_events", 1);
+    if (++g_cluster_passes > CLUSTER_PASS_CEILING) fail_hang("pass-ceiling", "more than %ld passes of one selection/Lloyd loop (items selected so far %g)", CLUSTER_PASS_CEILING, (double)comp);
+    return;
+  }
   /* PLS passes its own iteration counter as `comp`: a new latent variable restarts it at 1 */
   int newcomp = (loop != g_last_loop) || (loop == 1 ? comp <= g_last_comp : comp != g_last_comp);
   if (newcomp) {
@@ -59,10 +66,10 @@ static void rng_hook(int fn, uint32_t st)
 static void arm(const char *api, long rng_ceiling)
 {
   g_api = api; g_last_loop = -1; g_last_comp = (size_t)-1; g_tick_comp_count = 0; g_nan_run = 0;
-  g_rng_calls = 0; g_rng_ceiling = rng_ceiling;
+  g_rng_calls = 0; g_rng_ceiling = rng_ceiling; g_cluster_passes = 0;
   libsci_verif_tick_hook = tick_hook; libsci_verif_rng_hook = rng_hook;
 }
-static void disarm(void) { libsci_verif_tick_hook = NULL; libsci_verif_rng_hook = NULL; }
+static void disarm(void) { libsci_verif_tick_hook = NULL; libsci_verif_rng_hook = NULL; vh_max("max_clustering_loop_passes", (double)g_cluster_passes); }
 
 /* ------------------------------------------------------------------ degenerate data */
 /* n x p matrix of exact rank r (r <= min(n,p)) from small integer factors, optionally duplicated rows,
@@ -355,15 +362,17 @@ static void case_cpca(vh_ctx *c)
 static void case_kmeans(vh_ctx *c)
 {
   size_t n = (size_t)vh_int(c, 2, 14), p = (size_t)vh_int(c, 1, 3), nd = (size_t)vh_int(c, 1, 3), k = (size_t)vh_int(c, 1, 5), i, j;
-  int init = (int)vh_int(c, 0, 3), direct = vh_coin(c, 0.3), nth = (int)vh_int(c, 1, 3);
+  int init = (int)vh_int(c, 0, 3), direct = vh_coin(c, 0.3), nth = (int)vh_int(c, 1, 3), over = 0;
   matrix *mx, *cent;
   uivector *lab;
   double proto[3][3];
-  if (k > n) k = n;
+  /* more clusters than points (the analogue of more components than the rank): 10 % of the cases ask for n+1 or n+2 clusters */
+  if (vh_coin(c, 0.1)) { n = (size_t)vh_int(c, 1, 5); k = n + (size_t)vh_int(c, 1, 2); over = 1; }
+  else if (k > n) k = n;
   for (i = 0; i < 3; i++) for (j = 0; j < 3; j++) proto[i][j] = (double)vh_int(c, -3, 3);
   NewMatrix(&mx, n, p);
   for (i = 0; i < n; i++) for (j = 0; j < p; j++) mx->data[i][j] = proto[i % nd][j];     /* nd distinct points, rest duplicates */
-  snprintf(g_inclass, sizeof g_inclass, "%s", nd == 1 ? "identical-points" : k > nd ? "fewer-distinct-than-clusters" : "duplicates");
+  snprintf(g_inclass, sizeof g_inclass, "%s", over ? "more-clusters-than-points" : nd == 1 ? "identical-points" : k > nd ? "fewer-distinct-than-clusters" : "duplicates");
   vh_class(c, "%s-%s-init%d-th%d", direct ? "KMeansppCenters" : "KMeans", g_inclass, init, nth);
   vh_desc(c, "%s points=%zu dims=%zu distinct<=%zu clusters=%zu initializer=%d threads=%d", direct ? "KMeansppCenters" : "KMeans", n, p, nd, k, init, nth);
   srand_((uint32_t)(c->idx + 7));
@@ -373,7 +382,8 @@ static void case_kmeans(vh_ctx *c)
     KMeansppCenters(mx, k, sel, nth);
     disarm();
     vh_obs("returned_KMeansppCenters", 1);
-    if (sel->size != k) vh_fail(c, "KMeansppCenters|count", "asked %zu got %zu", k, sel->size);
+    if (over ? sel->size > k : sel->size != k) vh_fail(c, "KMeansppCenters|count", "asked %zu got %zu (%zu points)", k, sel->size, n);
+    if (over) vh_obs("kmeans_more_clusters_than_points_returned", 1);
     for (i = 0; i < sel->size; i++) if (sel->data[i] >= n) vh_fail(c, "KMeansppCenters|index-range", "index %zu of %zu", sel->data[i], n);
     DelUIVector(&sel);
   } else {
@@ -382,6 +392,7 @@ static void case_kmeans(vh_ctx *c)
     KMeans(mx, k, init, lab, cent, (size_t)nth);
     disarm();
     vh_obs("returned_KMeans", 1);
+    if (over) vh_obs("kmeans_more_clusters_than_points_returned", 1);
     if (lab->size != n) vh_fail(c, "KMeans|label-count", "%zu labels for %zu objects", lab->size, n);
     for (i = 0; i < lab->size; i++) if (lab->data[i] >= k) { vh_fail(c, "KMeans|label-range", "label %zu >= %zu", lab->data[i], k); break; }
     DelUIVector(&lab); DelMatrix(&cent);
